@@ -45,6 +45,15 @@ def run(tier, seed):
         driver.extract_driver(eng2)
         verify_contracts(eng2, [c for c in residual_n.driver_contracts if c.setup], chk)
     guarded(chk, 'proved part driver_n', driver_n)
+
+    def data():
+        from contracts import problems_data
+        eng3 = common.new_engine(problems_data.contracts, "C03")
+        arrays.install(eng3)
+        extio.install(eng3)
+        problems_data.install(eng3)
+        verify_contracts(eng3, problems_data.contracts, chk)
+    guarded(chk, 'proved part problems_data', data)
     from vlib import smt
     smt.close_pool()
     try:
